@@ -81,9 +81,12 @@ def check(ctx):
     configs = ["native"] if ctx.tier == "quick" else ["native", "portable", "native-rel", "portable-rel"]
     for cfg in configs:
         check_config(ctx, ctx.facts(cfg), "" if cfg == "native" else "@" + cfg)
+    if ctx.tier == "thorough":
+        import poscontrol
+        poscontrol.run(ctx, "C14")
 
 
-def check_config(ctx, F, tag):
+def check_config(ctx, F, tag, views=True):
     partial_calls = []
     copy_sites = []
     for b in F.all_bodies():
@@ -213,6 +216,8 @@ def check_config(ctx, F, tag):
         ctx.ob("C14.R2.copy-count-checked", key + tag, where, ok, "guard-on-path", detail)
         ctx.count("io-copy-sites" + tag)
 
+    if not views:
+        return
     # ---------- R4 mapped views
     mapped.check_views(ctx, F, tag, prefix="C14.R4")
 
